@@ -2,14 +2,20 @@
   Driver for C08 (Exchange terminates, honours its context, resends verbatim, leaks nothing).  H := MD5.
 
   case:  scenario <reqcode> <id> <auth> <secret> <attrs> <retryMs> <maxErrors> <skipVerify>
-                  <peer> <cancel> <reply> <garbage>
-    peer    silent | closed | flood | late:<k>:<g>:<m>
+                  <peer> <cancel> <reply> <garbage> [<ctx>]
+    peer    silent | closed | flood | late:<k>:<g>:<m> | nodial:<v> | vanish
             (late: after the (k+1)-th datagram from the client send g garbage datagrams, the reply and m more
-             datagrams; flood: garbage from the first request on, until the call returns)
+             datagrams; flood: garbage from the first request on, until the call returns;
+             nodial: an address `DialContext` refuses at once (v = 0 no port, 1 port 99999, 2 unixgram path that
+             does not exist, 3 unknown network) - a listener of the harness stays up to see that nothing is sent;
+             vanish: `Client.Net = "unixgram"`, the peer takes the first datagram and is then closed and unlinked:
+             every retransmission fails, the pending Read does not)
     cancel  never | pre | predeadline | at:<j>:<delayMs> | deadline:<ms>
             (pre: context already cancelled; predeadline: deadline already passed; at: cancel delayMs after
              the peer received its j-th datagram; deadline: context.WithTimeout(ms))
     reply, garbage   the concrete datagrams the peer sends (hex)
+    ctx     std | wrap (optional, default std): the context is of a standard library type / of a user-defined type
+            with its own Done channel.  The logic machine does not depend on it (the runtime observations do).
   impl:  class=<c> pkt=<fields|-> first=<hex|-|na> verbatim=<b|na> resends=<ok|…|na> prompt=<b|na>
          silent=<b|na> goroutines=<b> fds=<b>
          (observations of the real call as classes and booleans, never raw timings)
@@ -29,6 +35,8 @@ open RV.Client RV.Exchange
 inductive PeerKind where
   | silent | closed | flood
   | late (k g m : Nat)
+  | nodial (v : Nat)
+  | vanish
 
 inductive CancelKind where
   | never | pre | predeadline
@@ -41,6 +49,10 @@ def parsePeer (s : String) : Option PeerKind :=
   | ["closed"] => some .closed
   | ["flood"] => some .flood
   | ["late", k, g, m] => do pure (.late (← parseNat k) (← parseNat g) (← parseNat m))
+  | ["nodial", v] => do
+    let v ← parseNat v
+    if v < 4 then pure (.nodial v) else none
+  | ["vanish"] => some .vanish
   | _ => none
 
 def parseCancel (s : String) : Option CancelKind :=
@@ -80,6 +92,19 @@ def scenarioEvents (retryMs maxErr : Int) (peer : PeerKind) (cancel : CancelKind
   | _ =>
     match peer with
     | .closed => some [.dialOk, .readError]
+    | .nodial _ =>
+      -- `DialContext` fails at once, with the context still live (a deadline must be far enough away for that)
+      match cancel with
+      | .never => some [.dialFail]
+      | .deadline ms => if ms ≥ 1000 then some [.dialFail] else none
+      | _ => none
+    | .vanish =>
+      -- the peer takes the first datagram and goes away; the retransmissions (`conn.Write` calls whose errors the
+      -- code ignores) change nothing, no Read completes until the helper closes the conn
+      match cancel with
+      | .at j _ => if j == 1 then some ([.dialOk] ++ ticks 2 ++ fin) else none
+      | .deadline _ => some ([.dialOk] ++ ticks 2 ++ fin)
+      | _ => none
     | .silent =>
       match cancel with
       | .never => none
@@ -122,7 +147,8 @@ def tok (impl key : String) : String :=
 
 def c08 (op : String) (args : List String) (impl : String) : Verdict :=
   match op, args with
-  | "scenario", [code, id, auth, secret, attrs, retry, maxErr, skip, peer, cancel, reply, garbage] =>
+  | "scenario", code :: id :: auth :: secret :: attrs :: retry :: maxErr :: skip :: peer :: cancel :: reply :: garbage :: rest =>
+    if !(rest == [] || rest == ["std"] || rest == ["wrap"]) then bad "scenario-args" else
     match parseInt code, parseNat id, unhex auth, unhex secret, parseAttrList attrs, parseInt retry, parseInt maxErr,
           parseNat skip, parsePeer peer, parseCancel cancel, unhex reply, unhex garbage with
     | some code, some id, some auth, some secret, some attrs, some retry, some maxErr, some skip, some peer,
@@ -139,16 +165,20 @@ def c08 (op : String) (args : List String) (impl : String) : Verdict :=
         match s.phase with
         | .returned r =>
           let closed := match peer with | .closed => true | _ => false
+          let vanish := match peer with | .vanish => true | _ => false
+          let nodial := match peer with | .nodial _ => true | _ => false
+          -- what the peer cannot report: nobody is there (closed), or it is gone after the first datagram (vanish)
+          let blind := closed || vanish
           let isCtx := match r with | .ctxErr => true | _ => false
           let cls := showResultClass cancel.isDeadline r
           let pkt := match r with | .reply p => showPkt p | _ => "-"
           let first := if closed && !s.sent.isEmpty then "na" else match s.sent with
             | w :: _ => hexOf w
             | [] => "-"
-          let verbatim := if closed then "na" else boolStr (s.sent.all (fun x => some x == s.sent.head?))
-          let resends := if closed then "na" else "ok"
+          let verbatim := if blind then "na" else boolStr (s.sent.all (fun x => some x == s.sent.head?))
+          let resends := if blind then "na" else "ok"
           let model := s!"class={cls} pkt={pkt} first={first} verbatim={verbatim} resends={resends} " ++
-            s!"prompt={if isCtx then "true" else "na"} silent={if closed then "na" else boolStr true} " ++
+            s!"prompt={if isCtx then "true" else "na"} silent={if blind then "na" else boolStr true} " ++
             s!"goroutines={boolStr s.connClosed} fds={boolStr s.connClosed}"
           -- the property's clauses on the implementation's observations
           let icls := tok impl "class"
@@ -163,6 +193,12 @@ def c08 (op : String) (args : List String) (impl : String) : Verdict :=
              ("context_error_is_the_contexts_own", !(icls.startsWith "ctx-") || (cancelled && icls == ctxName)),
              ("returns_context_error_after_cancel", !isCtx || icls == ctxName),
              ("returns_the_reply_when_one_arrives", !(cls == "reply") || icls == "reply"),
+             -- a failed dial: the dial error comes back unless the context was done (then the context's own)
+             ("dial_error_returned_unless_ctx_done", !(cls == "dial-error") || icls == "dial-error"),
+             -- … and nothing was written anywhere: the machine's `sent` is empty, and so is the peer's log
+             ("nothing_sent_on_dial_failure", !(nodial || cls == "dial-error") || (s.sent.isEmpty && tok impl "first" == "-")),
+             -- retransmissions that fail do not keep the call from returning the context's error
+             ("failed_resends_do_not_outlive_cancel", !(vanish && isCtx) || icls == ctxName),
              ("returns_promptly_after_cancel", okTok "prompt"),
              ("resend_is_byte_identical", okTok "verbatim"),
              ("no_resend_when_retry_not_positive", decide (retry > 0) || tok impl "resends" == "ok" || tok impl "resends" == "na"),
